@@ -7,6 +7,7 @@ import fcntl
 import glob
 import hashlib
 import importlib
+import itertools
 import json
 import os
 import random
@@ -344,6 +345,25 @@ def write_replay(pid, kind, rec, extra=None):
     return path
 
 
+def source_changed(pid):
+    """names of the property's anchored files whose content differs from baseline_hashes.json (recorded at the
+    /repo commit this framework was validated against); [] when identical or when no baseline is recorded"""
+    path = os.path.join(ROOT, "baseline_hashes.json")
+    if not os.path.exists(path):
+        return []
+    base = json.load(open(path))
+    out = []
+    for rel, h in base.get(pid, {}).items():
+        f = os.path.join(REPO, rel)
+        try:
+            cur = hashlib.sha256(open(f, "rb").read()).hexdigest()
+        except OSError:
+            cur = "missing"
+        if cur != h:
+            out.append(rel)
+    return out
+
+
 def default_search(mod):
     def search(rng, tier, seeds):
         batch = []
@@ -423,6 +443,32 @@ def main_check(pid, tier, seed, replay=None):
         except Exception as e:  # noqa: BLE001
             fatal = f"harness failure: {e!r}\n{traceback.format_exc()}"
             ctx.log(fatal)
+
+    # ---- escalation: when the anchored sources differ from the recorded baseline (i.e. the code under /repo was
+    # changed) and the quick cases found nothing, keep exploring with the thorough generators for a bounded time.
+    escalated = {"source_changed": False, "extra_cases": 0}
+    if ok_build and not replay and tier == "quick" and fatal is None:
+        changed = source_changed(pid)
+        escalated["source_changed"] = bool(changed)
+        quiet = not any(r["check_fail"] and not matches_known(pid, r, known) for r in recs) and \
+            not any(r["diff"] for r in recs)
+        if changed and quiet:
+            budget = float(os.environ.get("GV_ESCALATE_S", "150"))
+            t_end = time.time() + budget
+            ctx.log(f"anchored sources changed ({', '.join(changed)[:200]}): escalating for up to {budget:.0f}s")
+            try:
+                gen = mod.generate(random.Random(ctx.seed * 7919 + 17), "thorough")
+                while time.time() < t_end:
+                    batch = list(itertools.islice(gen, 200))
+                    if not batch:
+                        break
+                    rs = evaluate_cases(mod, batch, ctx)
+                    recs += rs
+                    escalated["extra_cases"] += len(rs)
+                    if any((x["check_fail"] and not matches_known(pid, x, known)) or x["diff"] for x in rs):
+                        break
+            except Exception as e:  # noqa: BLE001
+                ctx.log(f"escalation stopped: {e!r}")
 
     check_fails = [r for r in recs if r["check_fail"]]
     # a record whose only checker complaint is an open known finding still counts for the correspondence
@@ -539,6 +585,7 @@ def main_check(pid, tier, seed, replay=None):
             "correspondence_disagreements": len(diffs),
             "checker_failures": len(check_fails),
             "search_cases_after_break": searched,
+            "escalation_after_source_change": escalated,
             "exhaustive": bool(getattr(mod, "EXHAUSTIVE", {}).get(tier, False)),
             "histogram": hist,
             "explanation": getattr(mod, "EXPLANATION", ""),
